@@ -52,7 +52,8 @@ def typeDef (parent : Option Nat) (l : Level) : Def :=
       | some e => .many e,
     includeType := if l.includeType then none else some false,
     serialization := l.serialization,
-    params := l.params }
+    params := l.params,
+    funcs := l.funcs }
 
 /-- the own attributes of the re-created level: `attributes` first, then `constants` -/
 def reorder (as : List Attr) : List Attr := as.filter (fun a => !a.constLike) ++ as.filter Attr.constLike
